@@ -162,6 +162,47 @@ def build() -> Check:
     ck.floor("returning_paths", n_ret, 10)
     ck.ob("R2.well-formed-return", c_w, not bad, (bad[0][0] + ": " + trace_sig(bad[0][1])[-200:]) if bad else f"{n_ret} returning paths")
 
+    # ... and syntactically, for the return sites the traces do not reach (the payload of a BackgroundThreadError is opaque to the model, so the arms that hand
+    # back `answer_for_failed_checkpointing()` are never taken there): every `return` of the wrapper hands back `<something>.to_dict()`, or a name that
+    # was bound from the failed-checkpointing helper and tested `is not None` on the way (mutscan: `return answer` -> `return None` survived everything)
+    wnode = wrapper_fn.node if "wrapper_fn" in dir() else prog.func("execution", "durable_execution.<locals>.wrapper").node
+    nested = [n for n in ast.walk(wnode) if isinstance(n, (ast.FunctionDef, ast.Lambda)) and n is not wnode]
+
+    def in_nested(n):
+        return any(n is x for f in nested for x in ast.walk(f))
+    parw = {}
+    for n in ast.walk(wnode):
+        for c in ast.iter_child_nodes(n):
+            parw[id(c)] = n
+    n_rs = 0
+    bad_rs = []
+    for r in ast.walk(wnode):
+        if not isinstance(r, ast.Return) or in_nested(r):
+            continue
+        n_rs += 1
+        v = r.value
+        ok_r = isinstance(v, ast.Call) and isinstance(v.func, ast.Attribute) and v.func.attr == "to_dict"
+        if not ok_r and isinstance(v, ast.Name):
+            # (the wrapper re-uses `result`: first the handler's result, later - in the arm for user errors - the answer; the binding that reaches this
+            # return is the last one before it in program text, both sit in the same handler body)
+            defs_ = [st for st in ast.walk(wnode) if isinstance(st, (ast.Assign, ast.AnnAssign)) and not in_nested(st) and st.value is not None
+                     and isinstance(st.target if isinstance(st, ast.AnnAssign) else st.targets[0], ast.Name) and (st.target if isinstance(st, ast.AnnAssign) else st.targets[0]).id == v.id
+                     and st.lineno < r.lineno]
+            last_ = max(defs_, key=lambda st: st.lineno).value if defs_ else None
+            ok_r = isinstance(last_, ast.Call) and isinstance(last_.func, ast.Attribute) and last_.func.attr == "to_dict"
+        if not ok_r and isinstance(v, ast.Name):
+            cur = parw.get(id(r))
+            while cur is not None and not ok_r:
+                if isinstance(cur, ast.If) and any(r is x for b in cur.body for x in ast.walk(b)):
+                    t_ = ast.unparse(cur.test)
+                    ok_r = f"{v.id} := answer_for_failed_checkpointing()" in t_ and t_.rstrip().endswith("is not None")
+                cur = parw.get(id(cur))
+        if not ok_r:
+            bad_rs.append(f"line {r.lineno}: `{ast.unparse(r)}`")
+    ck.floor("wrapper_return_sites", n_rs, 6)
+    ck.ob("R2.every-return-site-hands-back-an-answer", c_w, not bad_rs,
+          "; ".join(bad_rs[:3]) + ": the invocation would answer with something that is not a status dictionary (None: a null response)")
+
     # R3 classification reaches both categories
     fe = cpe.methods.get("from_exception")
     cats = {n.attr for n in ast.walk(fe.node) if isinstance(n, ast.Attribute) and isinstance(n.value, ast.Name) and n.value.id == "CheckpointErrorCategory"} if fe else set()
